@@ -29,7 +29,20 @@ def check_case(case):
     inv = [r for r in case["reqs"] if r.get("invalid")]
     val = [r for r in case["reqs"] if not r.get("invalid")]
     cls = set(run.classes)
-    if inv:
+    nth = any("nth" in f.get("when", {}) for f in case.get("forced", []))
+    if nth:
+        # one (unknown) request is refused by the controller: it may fail, but whatever is reported successful must be
+        # right - in particular a transfer with a refused fragment must not be reported as success
+        cls.add("forced-nth")
+        discs = [d for d in discs if ".valid-fails." not in d.bucket]
+        discs += [Disc("forced-nth." + d.bucket, d.detail) for d in run.of("C01", "C02")
+                  if d.bucket.startswith(("write.content", "read.value", "read.type"))]   # a refused transfer may be partly applied
+        executed_forced = [r for r in run.tgt.svc_log if r.get("forced")]
+        if executed_forced:
+            cls.add("forced-nth.hit")
+            if any(r.get("service") in (0x52, 0x53) for r in executed_forced):
+                cls.add("forced-nth.fragment")
+    elif inv:
         cls.add("has-invalid")
         for r in inv:
             cls.add("invalid." + r["invalid"])
